@@ -22,6 +22,8 @@ func VerifC20NeoFSConfig() {
 	case vEq(kq, k1):
 		vCover("query-hits-the-first-key")
 		vAssert(r != nil && vEq(r.([]byte), v1), "C20/neofs-config-returns-the-last-value-set")
+	case vEq(kq, []byte("InnerRingCandidateFee")) || vEq(kq, []byte("WithdrawFee")):
+		vAssert(r != nil, "C20/neofs-config-keeps-the-deployment-configuration")
 	default:
 		vCover("query-misses")
 		vAssert(r == nil, "C20/neofs-config-returns-nothing-for-an-unset-key")
